@@ -221,6 +221,32 @@ def index_reuse_possible(hugr) -> ast.AST | None:
     return None
 
 
+def sibling_order_rule(ctx, helper, rule, hugr) -> None:
+    """the traversal that fixes emission / copy order lists siblings in child order.  A FIFO / LIFO work list keeps the order in which
+    a parent's children were put on it; a PRIORITY work list (heapq) does not: there a node's children may only be unblocked one at a
+    time -- the first child when the parent is listed, each next sibling when its predecessor is -- never all at once"""
+    cf = ctx.canon.fn(helper, hugr.module, hugr)
+    pushes = [c for c in calls_in(cf) if call_name(c) in ("heappush", "heappush_max", "heappushpop", "heapreplace")]
+    heapified = any(call_name(c) in ("heapify", "heappop", "nsmallest", "merge") for c in calls_in(cf))
+    if not pushes and not heapified:
+        ctx.ok(rule, f"Hugr.{helper.name}: siblings in child order", "no priority work list")
+        return
+    bad = None
+    for lp in [n for n in ast.walk(cf) if isinstance(n, (ast.For, ast.While))]:
+        it = lp.iter if isinstance(lp, ast.For) else lp.test
+        over_children = any((isinstance(x, ast.Attribute) and x.attr == "children") or (isinstance(x, ast.Call) and call_name(x) == "children") for x in ast.walk(it))
+        if over_children and any(call_name(c) in ("heappush", "heappushpop", "heapreplace") for b_ in lp.body for c in calls_in(b_)):
+            bad = lp
+    for c in calls_in(cf):
+        # ready.extend(children) / ready += children followed by heapify: all at once as well
+        if call_name(c) == "extend" and any(isinstance(x, ast.Attribute) and x.attr == "children" for a in c.args for x in ast.walk(a)) and heapified:
+            bad = c
+    ctx.check(bad is None, rule, f"Hugr.{helper.name}: siblings in child order", hugr.module.path, getattr(bad, "lineno", helper.lineno),
+              "the traversal keeps its work list as a priority queue ordered by node index: putting all children of a node on it at once lists "
+              "siblings by index, not in child order (they differ once a freed index was reused by a later sibling); a node's children must be "
+              "unblocked one at a time, each by its predecessor", bad if bad is not None else helper)
+
+
 def r3_r4_order(ctx, rule3="C03.R3", rule4="C03.R4", with_insert: bool = False) -> None:
     prog = ctx.program
     hugr = prog.cls(f"{BASE}.Hugr")
@@ -271,6 +297,8 @@ def r3_r4_order(ctx, rule3="C03.R3", rule4="C03.R4", with_insert: bool = False) 
                   f"`{u(lp.iter)}` (index order); with reused indices a child comes first and insertion raises ParentBeforeChild", lp,
                   expected="an order derived from the hierarchy", found=u(lp.iter),
                   detail=f"order from {h2.name if h2 else ''}()")
+    for h_ in {id(x): x for x in (helper, h2 if with_insert else None) if x is not None}.values():
+        sibling_order_rule(ctx, h_, rule4, hugr)
     # ---- R3: root first, root is its own parent
     if helper is not None:
         # the helper starts from the root: its first emitted node is self.root
